@@ -2,6 +2,7 @@
 from contracts import c_dynmat as D
 from contracts import py_svecs as PS
 
+from contracts import py_layout as PL
 
 def build(run):
     gdm = D.get_dm_contract()
@@ -18,3 +19,5 @@ def build(run):
                                                         "dym_get_dynamical_matrix_at_q": atq})
     # the phase uses the shortest vectors in primitive-cell coordinates: the change of coordinates keeps the Cartesian vector
     PS.primitive_svecs_transform(run)
+    # the batched solver must hand the compiled kernel the q-points the caller gave (dtype / memory layout of the raw pointer)
+    run.py_contract(PL.DF, "run_dynamical_matrix_solver_c[q-point layout]", lambda: PL.solver_qpoint_layout(run), PL.replay_layout)
